@@ -95,7 +95,7 @@ class HelpersContent:
         f = self.file
         m = one(self.items, 'mod', 'restrictions')
         open_container(out, m, f, '    use vstd::prelude::*;\n    use crate::stdspec::{is_numeral, int_of};\n'
-                                  '    broadcast use {crate::ax::rc_clone_eq, crate::ax::parse_i32, crate::ax::parse_i64, crate::ax::parse_i128, crate::ax::string_peq, crate::ax::try_from_i32_obeys,\n        crate::ax::try_from_i32_i8, crate::ax::try_from_i32_u8, crate::ax::try_from_i32_i16, crate::ax::try_from_i32_u16,\n        crate::ax::try_from_i32_u32, crate::ax::try_from_i32_i64, crate::ax::try_from_i32_u64,\n        crate::ax::from_i128_obeys, crate::ax::from_i128_u8, crate::ax::from_i128_u16, crate::ax::from_i128_u32, crate::ax::from_i128_u64};')
+                                  '    broadcast use {crate::ax::rc_clone_eq, crate::ax::parse_i32, crate::ax::parse_i64, crate::ax::parse_i128, crate::ax::string_peq, crate::ax::try_from_i32_obeys,\n        crate::ax::try_from_i32_i8, crate::ax::try_from_i32_u8, crate::ax::try_from_i32_i16, crate::ax::try_from_i32_u16,\n        crate::ax::try_from_i32_u32, crate::ax::try_from_i32_i64, crate::ax::try_from_i32_u64,\n        crate::ax::byte_len_at_least_chars, crate::ax::from_i128_obeys, crate::ax::from_i128_u8, crate::ax::from_i128_u16, crate::ax::from_i128_u32, crate::ax::from_i128_u64};')
         emit_uses(out, m, f)
         emit_verbatim(out, child(m, 'struct', 'Restrictions'), f)
         out.spec(sec('R_spec.rs', 'restrictions-spec'))
@@ -121,11 +121,16 @@ class HelpersContent:
             splice_fn(out, fn, f, fid, inherits=inh, probe=probe, record=record, imported=imported, **kw)
             close_container(out, im, f)
 
+        # the invariant speaks about the restriction set AS PASSED IN (ghost snapshot taken first, so that a later
+        # shadowing of the parameter name cannot change its meaning)
+        vim = child(m, 'impl', r'< C > CheckRestrictions for Vec < C > where C : CheckRestrictions')
+        vp = self._param_name(child(vim, 'fn', 'check_restrictions'))
         impl(r'< C > CheckRestrictions for Vec < C > where C : CheckRestrictions', 'restrictions::Vec<C>::check_restrictions',
              'vec-spec-members',
+             inserts=[{'pos': 'body_start', 'text': f'            let ghost r0__ = {vp};'}], loop_isolation=False,
              loops={0: {'kind': 'for', 'iter': 'it',
                         'invariants': [('loop-prefix-sat',
-                                        'self.dom(restrictions) ==> forall|i: int| 0 <= i < it.index@ ==> (#[trigger] self@[i]).sat(restrictions)')]}})
+                                        'self.dom(r0__) ==> forall|i: int| 0 <= i < it.index@ ==> (#[trigger] self@[i]).sat(r0__)')]}})
         impl(r'< C > CheckRestrictions for Option < C > where C : CheckRestrictions', 'restrictions::Option<C>::check_restrictions',
              'option-spec-members')
         impl(r'CheckRestrictions for i32', 'restrictions::i32::check_restrictions', 'int-spec-members')
